@@ -51,7 +51,9 @@ def gen_spec(rng, tier):
             'counter': rng.choice(COUNTERS), 'cons': rng.choice(CONS), 'place': rng.choice(PLACES),
             'wrap': rng.choice(WRAPS), 'base': rng.choice(BASES), 'top': rng.choice(TOPS),
             'direct': rng.random() < 0.5, 'via': rng.choice(['both', 'both', 'bounded', 'plain']),
-            'lo': rng.choice([3, 4, 6, 10]), 'step': 1, 'hi': 420, 'probe_n': rng.choice([1, 1, 2, 3])}
+            'lo': rng.choice([3, 4, 6, 10]), 'step': 1, 'hi': 420, 'probe_n': rng.choice([1, 1, 2, 3]),
+            # the base case is a DYNAMIC fact (assert_fact; matched before the compiled clauses, against a renamed copy)
+            'dynbase': rng.random() < 0.2}
     if spec['base'].startswith('open') and spec['n'] > 15:
         spec['n'] = rng.choice([4, 6, 8, 10, 12])       # n+1 answers of growing depth: keep the total work small
     if spec['cons'] == 'count' and spec['n'] > 15:
@@ -122,7 +124,10 @@ def build_program(spec):
             step = ['r', [succ(N), S], ['and', [wrap(C('r', N, T)), ['=', S, cons(T)]]]]
         else:
             step = ['r', [succ(N), S], ['and', [['=', S, cons(T)], wrap(C('r', N, T))]]]
-    cl += [base, step] if spec['base'].endswith('first') else [step, base]
+    if spec.get('dynbase'):
+        cl += [step]
+    else:
+        cl += [base, step] if spec['base'].endswith('first') else [step, base]
     cl.append(['nosuch', [], C('nosuch2')])
     cl.append(['nosuch2', [], ['=', A('a'), A('b')]])
     # a consumer recursion over whatever was built: size(S, Peano)
@@ -230,6 +235,15 @@ def build_query(spec, n):
             return t[1], t[2], 2 + len(extra)
     return 't', [cnt, ['v', 0], ['v', 1]], 2
 
+def dyn_facts(spec):
+    """[name, JSON args] of the dynamic facts (the base case of the builder when spec['dynbase'])"""
+    if not spec.get('dynbase'):
+        return []
+    zero = ['v', 900] if spec['base'].startswith('open') else (A('z') if spec['counter'] == 'peano' else NIL)
+    if spec['place'] == 'acc':
+        return [['ra', [zero, ['v', 901], ['v', 901]]]]
+    return [['r', [zero, A('e')]]]
+
 def program_text(spec):
     from props import c03_ref
     return c03_ref.program_text(build_program(spec))
@@ -286,6 +300,18 @@ def _impl(case):
             return orig_query(name, args)
         yp.query = counted_query
         yp.eval_context['query'] = counted_query
+        for fname, fargs in dyn_facts(spec):
+            FT = terms.ImplTerms([yp], 0)
+            fv = {}
+            def fb(t):
+                if t[0] == 'v':
+                    if t[1] not in fv:
+                        fv[t[1]] = yp.variable()
+                    return fv[t[1]]
+                if t[0] == 'f':
+                    return yp.functor(t[1], [fb(a) for a in t[2]])
+                return FT.build(t)
+            yp.assert_fact(yp.atom(fname), [fb(a) for a in fargs])
         return yp, steps
 
     def unrestricted(yp, T, name, args, nv, maxans=60):
@@ -439,7 +465,7 @@ def _impl(case):
     if name == 't':
         from props import c03_ref
         try:
-            sa, se = c03_ref.answers(build_program(spec), [], [], [name, qargs], nv, None, 60, _canon, False)
+            sa, se = c03_ref.answers(build_program(spec), dyn_facts(spec), [], [name, qargs], nv, None, 60, _canon, False)
             out['spec1'] = sa
         except c03_ref.Cyclic:
             pass
@@ -468,6 +494,7 @@ def describe(case):
     return {'program': program_text(spec).split('\n'),
             'query': '%s(%s)' % (name, ', '.join(terms.show_term(a) for a in qargs)),
             'probe': '%s(%s)' % (pname, ', '.join(terms.show_term(a) for a in pargs)),
+            'dynamic_facts': ['%s(%s)' % (n, ', '.join(terms.show_term(a) for a in xs)) for n, xs in dyn_facts(spec)],
             'limits': 'depth of the caller + %d, +%d, ... (until 4 complete runs in a row, at most +%d)' % (spec['lo'], spec['lo'] + spec['step'], spec['hi']),
             'through': spec['via']}
 
@@ -488,6 +515,8 @@ def shrink(case):
         yield w(cons='cons')
     if spec['base'] != 'last':
         yield w(base='last')
+    if spec.get('dynbase'):
+        yield w(dynbase=False)
     if spec['via'] == 'both':
         yield w(via='bounded')
         yield w(via='plain')
